@@ -174,7 +174,7 @@ func (e *exitInv) After(m *Machine, a *Action, o Outcome) error {
 	}
 	blocks := 0
 	switch a.Kind {
-	case "nextBlock", "slash", "jail", "unjail":
+	case "nextBlock", "slash", "jail", "unjail", "evidence":
 		blocks = 1
 	}
 
